@@ -91,7 +91,7 @@ PATH_KINDS = (
     + [dict(kind='custom', drift=-2.7, uint=True), dict(kind='custom', drift=2.7, uint=True)]
     + [dict(kind=k, drift=0.7) for k in ('array', 'list')]
     + [dict(kind='array', drift=0.7, ints=True), dict(kind='list', drift=0.7, ints=True)]
-    + [dict(kind='array', drift=1.3, closed=True)]
+    + [dict(kind='array', drift=1.3, closed=True), dict(kind='array', drift=2.3, lastonly=True)]
     # whole-Hz paths held as UNSIGNED integers, drifting down as well as up (differences of unsigned values wrap)
     + [dict(kind='array', drift=-2.7, ints=True, dtype='uint64'), dict(kind='array', drift=2.7, ints=True, dtype='uint64')]
     + [dict(kind='float', drift=0.0), dict(kind='int', drift=0.0)]
@@ -240,6 +240,9 @@ def concretise(case, fs, ts):
     elif k in ('array', 'list'):
         jit = _rng(seed, 11).uniform(-0.4, 0.4, 16)
         vals = [float(f0 + d * df * i + jit[i] * df) for i in range(rows + p.get('extra', 0))]
+        if p.get('lastonly'):
+            # flat over the frame's rows, only the EXTRA (tchans+1-th) value moves: under smearing the last row is smeared, else nothing drifts
+            vals = [float(f0)] * (len(vals) - 1) + [float(f0 + d * df)] if case['sm'] else [float(f0)] * len(vals)
         if p.get('closed'):
             # a path that goes up and comes back: its last value EQUALS its first one (no net drift, yet every row drifts)
             last = len(vals) - 1
